@@ -15,7 +15,7 @@ from ..common import SpySolver, interior_index, to_list
 ID = 'C07'
 RULE = ('cases = (grid class, N, spacing family, BC kind per side in {Dirichlet with face-wise data, no-flux, periodic}, D>=0 field '
         'with contrast up to 1e8 and exact zeros, discretely divergence-free velocity family in {none, uniform Cartesian, radial '
-        'q/r^p of either sign, discrete stream function with or without walls}, beta>=0 or none, dt over 8 decades, initial field '
+        'q/r^p of either sign, discrete stream function with or without walls, flow along one non-radial coordinate with flux constant along it}, beta>=0 or none, dt over 8 decades, initial field '
         'family, 1..6 steps); every step is one monitored event; non-trivial = initial field not constant; distinct by (class, N, '
         'families, BC vector, flow family, term set, dt decade)')
 ASSUMPTIONS = ['range tolerance = 1e-9*(range + max|values|) + 100*n*eps*(1 + dt/alpha*max_row|M|)*max|x| computed from the captured system '
@@ -46,7 +46,7 @@ def bc_for(rng, g, cls, allow_periodic=True):
 
 
 def flow_for(rng, g, m, spec):
-    fam = str(rng.choice(['none', 'uniform', 'radial', 'stream-walls', 'stream-open', 'stream-walls']))
+    fam = str(rng.choice(['none', 'uniform', 'radial', 'stream-walls', 'stream-open', 'stream-walls', 'axis', 'axis']))
     per = spec['periodic']
     u = None
     if fam == 'uniform':
@@ -55,6 +55,8 @@ def flow_for(rng, g, m, spec):
         u = ops.radial_flow(g, float(rng.choice([-1, 1]) * 10 ** rng.uniform(-1, 1)))
     elif fam.startswith('stream'):
         u = ops.stream_flow(rng, g, periodic_axes=per, amp=10 ** rng.uniform(-1, 1), walls=fam.endswith('walls'))
+    elif fam == 'axis':
+        u, _k = ops.axis_flow(rng, g)
     if u is None:
         fam = 'none'
         u = [np.zeros(g.face_shape(k)) for k in range(g.nd)]
@@ -214,7 +216,7 @@ def floors(agg, tier):
         if agg['cov'].get('cases:' + cls, 0) < 20:
             out.append('cases:%s < 20' % cls)
     for k, need in (('bc:D', 50), ('bc:N0', 50), ('bc:periodic', 20), ('flow:uniform', 3), ('flow:radial', 3), ('flow:stream-walls', 10),
-                    ('flow:stream-open', 5), ('terms:D', 10), ('terms:D+upwind', 10), ('extremal_dt_steps', 50), ('steps', 300)):
+                    ('flow:stream-open', 5), ('flow:axis', 10), ('terms:D', 10), ('terms:D+upwind', 10), ('extremal_dt_steps', 50), ('steps', 300)):
         if agg['cov'].get(k, 0) < need:
             out.append('%s < %d' % (k, need))
     return out
